@@ -7,5 +7,8 @@ git -C /repo apply /verif/seeded/$name/patch.diff || { echo "patch does not appl
 trap 'git -C /repo checkout -- . ; git -C /repo clean -fdq' EXIT
 for p in "$@"; do
   out=$(./check $p --tier quick 2>&1); rc=$?
-  echo "$name $p exit=$rc :: $(echo "$out" | grep -E 'VIOLATION|KNOWN' | head -3 | tr '\n' ' ') $(echo "$out" | tail -1)"
+  echo "$name $p exit=$rc :: $(echo "$out" | grep -E "^VIOLATION" | head -4 | tr '\n' ' ') $(echo "$out" | tail -1)"
 done
+# the harness binary now contains the mutant: rebuild it from the restored tree
+git -C /repo checkout -- . ; git -C /repo clean -fdq
+( cd /verif/harness && GOFLAGS=-mod=mod GOPROXY=off GOSUMDB=off GOTOOLCHAIN=local go build -tags verif -o /verif/.build/harness . )
